@@ -142,6 +142,31 @@ def oracle(case, lines, extrabuf=65536, cheap=8):
             n = min(len(avail), cap)
             exp_out = "rd:%d:%d:%d:-:cap=%d" % (n, cnt, w_prev, cap)
             content += avail[:n]
+        elif k == "RF2":
+            # both buffers read their own descriptor at the same time (two threads): each gets exactly ITS bytes
+            a2, b2 = bytes_of_spec(t[1]), bytes_of_spec(t[2])
+            cap1 = w_prev + extrabuf if w_prev < extrabuf else w_prev
+            n1 = min(len(a2), cap1)
+            content += a2[:n1]
+            f = out.split(":")
+            if f[0] != "rd2" or len(f) != 5:
+                return (i, "unparsable RF2 result %r" % out)
+            n2 = int(f[2])
+            if int(f[1]) != n1:
+                return (i, "concurrent readFd on two buffers: buffer 1 returned %s, its descriptor delivered %d bytes" % (f[1], n1))
+            if n2 > len(b2) or n2 < 0:
+                return (i, "concurrent readFd on two buffers: buffer 2 returned %d, its descriptor had %d bytes" % (n2, len(b2)))
+            other += b2[:n2]
+            if int(f[3]) != len(other) or f[4] != fnv(other):
+                return (i, "two buffers read their own descriptors at the same time (two threads, both reads spill into extrabuf): the "
+                           "readable content of buffer 2 is not the bytes delivered by ITS descriptor (%d bytes expected, %s readable, "
+                           "content differs: %s) -- readFd must append exactly the bytes the descriptor delivered" %
+                        (len(other), f[3], f[4] != fnv(other)))
+            exp_out = out
+            if h != fnv(content):
+                return (i, "two buffers read their own descriptors at the same time (two threads, both reads spill into extrabuf): the "
+                           "readable content of buffer 1 is not the bytes delivered by ITS descriptor (%d bytes) -- readFd must append "
+                           "exactly the bytes the descriptor delivered" % len(content))
         elif k == "RFE":
             cnt = 2 if w_prev < extrabuf else 1
             cap = w_prev + extrabuf if cnt == 2 else w_prev
@@ -230,6 +255,14 @@ def gen_boundary():
         ops = ["A @%d:6" % r] if r else []
         cases.append(vlib.Case("b%d" % n, "8 0", ops + ["RU %d" % r, "RU 0", "RU 1", "FC %d" % 0, "FE 0", "FC 1", "FE -1", "UW 0", "UW 1",
                                                          "HW @8:1", "HW @1:2", "PI 8 -1", "PI 1 5", "P @1:1", "KI 1", "RI 1", "RN 1"], "boundary-preconditions"))
+    # two buffers on two threads, both reads spill into readFd's extrabuf at the same time (rendezvous in the readv wrapper);
+    # different byte patterns; then the contents are looked at again, swapped, retrieved
+    for (i1, i2, n1, n2) in ((0, 0, 100, 100), (8, 16, 300, 70000), (16, 8, 65536 + 16, 65536 + 8), (1024, 0, 5000, 1), (0, 1024, 66000, 3000),
+                             (24, 24, 24, 200)):
+        n += 1
+        cases.append(vlib.Case("b%d" % n, "%d %d" % (i1, i2), ["A @5:77", "RF2 @%d:%d @%d:%d" % (n1, 1000 + n, n2, 2000 + n), "TS", "SW", "TS",
+                                                               "RF2 @%d:%d @%d:%d" % (n2 // 2 + 40, 3000 + n, n1 // 2 + 40, 4000 + n), "RAS", "SW", "RAS"],
+                               "boundary-two-thread-spill"))
     n += 1
     cases.append(vlib.Case("b%d" % n, "8 0", ["A 0d", "FC0", "A 0a", "FC0", "FC 1", "FC 2", "FC 3", "FE0", "FE 1", "FE 2", "RU 2", "FC0", "FE0"], "boundary-find"))
     return cases
